@@ -77,6 +77,7 @@ func init() {
 				return ugo.String(fmt.Sprintf("F%d", len(args))), nil
 			}}
 			optConst(c)
+			optLiterals(c)
 			calls := []string{`NAME("7")`, `NAME(1)`, `NAME([1,2])`, `NAME("a", 1)`, `NAME(1 + 2)`, `[NAME(3), 1 + 1]`, `NAME(NAME(1))`}
 			n := 0
 			for _, b := range foldableBuiltins {
